@@ -349,6 +349,31 @@ Fixpoint run (e : env) (st : rstate) (l : list input) : rstate * list reply :=
       let (st2, rs) := run e st1 l' in (st2, r :: rs)
   end.
 
+(** Everything a session meets that is NOT one of the seven commands: ordinary statements and
+    whole transactions, an admin RELOAD (file unchanged, or its pool rebuilt with other
+    settings), PAUSE / RESUME, a checkout that is refused.  client.rs:961-966 refreshes the
+    router's copy of the pool settings for every message (`pool = current;
+    update_pool_settings(&pool.settings)`): [e'] = the settings in force afterwards (= the old
+    ones unless a RELOAD rebuilt the pool).  Nothing else of the router is written on these
+    paths (query_parser_read_write_splitting aside, which is C05): the command state stays. *)
+Inductive event := EvCmd (c : cmd) (a : list N) (o : N) | EvOther (e' : env).
+
+Fixpoint run_ev (e : env) (st : rstate) (l : list event) : env * rstate * list reply :=
+  match l with
+  | [] => (e, st, [])
+  | EvCmd c a o :: l' =>
+      let (st1, r) := handle e st c a o in
+      let '(e2, st2, rs) := run_ev e st1 l' in (e2, st2, r :: rs)
+  | EvOther e' :: l' => run_ev e' st l'
+  end.
+
+Fixpoint cmds_of (l : list event) : list input :=
+  match l with
+  | [] => []
+  | EvCmd c a o :: l' => (c, a, o) :: cmds_of l'
+  | EvOther _ :: l' => cmds_of l'
+  end.
+
 (* a whole simple-protocol message: Some reply = handled by the pooler (never forwarded);
    None = not a command, the message goes on to the server untouched *)
 Definition on_query (e : env) (st : rstate) (q : list N) (oracle : N) : rstate * option reply :=
@@ -498,5 +523,22 @@ Fixpoint session_obs (e : env) (st : rstate) (l : list (list N * N))
           let '(st1, (c1, v)) := texec e st c a o in
           let '(st2, r) := handle e st c a o in
           ((cmd_index c1, v), obs_state e st1, encode r, obs_state e st2) :: session_obs e st2 l'
+      end
+  end.
+
+(* the same with events that are not commands in between: [Some e'] = the settings in force
+   from this step on (a RELOAD rebuilt the pool), [None] = unchanged *)
+Fixpoint session_obs_ev (e : env) (st : rstate) (l : list (option env * (list N * N)))
+  : list ((N * list N) * (option N * N * bool * bool) * list N * (option N * N * bool * bool)) :=
+  match l with
+  | [] => []
+  | (oe, (q, o)) :: l' =>
+      let e1 := match oe with Some e' => e' | None => e end in
+      match classify q with
+      | None => ((99, []), obs_state e1 st, [], obs_state e1 st) :: session_obs_ev e1 st l'
+      | Some (c, a) =>
+          let '(st1, (c1, v)) := texec e1 st c a o in
+          let '(st2, r) := handle e1 st c a o in
+          ((cmd_index c1, v), obs_state e1 st1, encode r, obs_state e1 st2) :: session_obs_ev e1 st2 l'
       end
   end.
